@@ -192,6 +192,24 @@ def run_case(case, ctx):
                 else:
                     ctx.fail("derivation-present-more-than-once", parser=who, len=len(got_list),
                              distinct=len(got), **info)
+            # every tree is the derivation of *its* prefix: its root ends where its last token ends (GLR may
+            # place the end after the layout that follows, never beyond the next token)
+            for i in range(min(len(got_list), 40)):
+                tree = forest[i]
+                last = 0
+                stack = [tree]
+                while stack:
+                    x = stack.pop()
+                    if x.is_term():
+                        last = max(last, x.end_position)
+                    else:
+                        stack.extend(x.children)
+                limit = last
+                while limit < len(text) and text[limit] in " \t\r\n":
+                    limit += 1
+                if not (last <= tree.end_position <= limit):
+                    ctx.fail("tree-root-does-not-span-its-own-prefix", parser=who, index=i, root_end=tree.end_position,
+                             last_token_end=last, tree=tree.to_str()[:300], **info)
             ctx.label("glr-prefix-forests")
         if len(ends) >= 2 or (ends and max(ends) < max(chart.nodes)):
             ctx.nontrivial([case["g"], tb, text],
